@@ -1275,7 +1275,7 @@ namespace awkward {
     std::vector<ContentPtrVec> for_each_field;
     for (auto field : contents_) {
       ContentPtr trimmed = field.get()->getitem_range_nowrap(0, length_);
-      for_each_field.push_back(ContentPtrVec({ field }));
+      for_each_field.push_back(ContentPtrVec({ trimmed }));
     }
 
     if (istuple()) {
